@@ -8,6 +8,7 @@
 //!             | pp:<seed> | ppmut:<seed>      (preprocessor grammar: entry file + in-memory headers + its own API defines)
 //!             | syn:<seed> | synmut:<seed> | synone:<k>   (syntax-category generator, see c08_syn.rs)
 //!             | props:<seed> | propone:<k>   (property blocks / attributes / redefinitions, see c08_props.rs)
+//!             | cyc:<seed> | cycone:<k>      (valid programs whose call graph has cycles through different symbols, see c08_cyc.rs)
 //!             | hexm:<entry>|<hex>|<name>|<hex>|...                        (literal multi-file input)
 //! observe : ok:<pipelines>:<output bytes> | err:<first line of the diagnostic> | panic:<site> | died:<signal> | timeout
 //! oracle  : (the property's own) the worker process survives, `compile` returns, an `Err` renders to a non-empty
@@ -180,8 +181,16 @@ struct Overlay<'a> {
     loaded: usize,
 }
 
+/// the include handler stops handing out files once this many bytes went out (a generated header included hundreds of
+/// times: 4.9 MB took 4.5 s, inside the n^2 budget but at the edge of the fixed watchdog — a false alarm on a loaded
+/// machine, seen with `ppmut:13401016671280`); the compiler then reports the include as not found
+const MAX_LOADED: usize = 1 << 20;
+
 impl rssl::text::IncludeHandler for Overlay<'_> {
     fn load(&mut self, file_name: &str, parent_name: &str) -> Result<rssl::text::FileData, rssl::text::IncludeError> {
+        if self.loaded > MAX_LOADED {
+            return Err(rssl::text::IncludeError::FileNotFound);
+        }
         if file_name == self.m.entry {
             return match String::from_utf8(self.m.bytes.clone()) {
                 Ok(contents) => {
@@ -256,6 +265,20 @@ fn run_one(req: &Req) -> Res {
         }
         Err(p) => (format!("panic:{}", p), format!("FAIL:panic {}", p)),
     };
+    // the call-graph streams emit VALID programs: the unchanged compiler accepts mutual recursion, so a diagnostic is a
+    // failure too whenever the request selects something that exists (module mode, all pipelines of a program that has
+    // one, a pipeline by its name) and no command-line define interferes
+    if oracle == "ok" && obs.starts_with("err:") && (req.input.starts_with("cyc:") || req.input.starts_with("cycone:")) && req.defs.is_empty() {
+        let names = pipeline_names(&m.bytes);
+        let selected = match &req.mode {
+            Mode::NoPipeline => true,
+            Mode::All => !names.is_empty(),
+            Mode::Named(n) => names.iter().any(|x| x == n),
+        };
+        if selected {
+            oracle = format!("FAIL:valid call-graph program rejected: {}", &obs[4..]);
+        }
+    }
     if oracle == "ok" && (micros as f64) / 1000.0 > budget_ms(nbytes) {
         oracle = format!("FAIL:slow {} ms for {} bytes (budget {:.0} ms)", micros / 1000, nbytes, budget_ms(nbytes));
     }
@@ -1418,7 +1441,7 @@ pub fn run(args: &Args, out: &mut Out) {
         let n = args.n.unwrap_or(20000);
         let mut bad = 0;
         for seed in 0..n {
-            for kind in ["pp", "ppmut", "syn", "synmut", "props", "cx", "gram", "gmut", "feat", "toks", "rep", "bytes", "prog", "pmut"] {
+            for kind in ["pp", "ppmut", "syn", "synmut", "props", "cyc", "cx", "gram", "gmut", "feat", "toks", "rep", "bytes", "prog", "pmut"] {
                 let r = guard(|| materialise(&format!("{}:{}", kind, seed)).map(|m| m.bytes.len()));
                 if let Err(p) = r {
                     bad += 1;
@@ -1595,7 +1618,7 @@ pub fn run(args: &Args, out: &mut Out) {
                 }
             }
         }
-        for k in ["toks", "rep", "gram", "gmut", "feat", "prog", "pmut", "syn", "synmut", "props", "propone", "pp", "ppmut"] {
+        for k in ["toks", "rep", "gram", "gmut", "feat", "prog", "pmut", "syn", "synmut", "props", "propone", "cyc", "cycone", "pp", "ppmut"] {
             for (c, _) in SYN_NEEDLES {
                 hist.0.entry(format!("det/{}/{}", k, c)).or_insert(0);
             }
@@ -1648,6 +1671,13 @@ pub fn run(args: &Args, out: &mut Out) {
             let stage = stage_cache.entry(ck).or_insert_with(|| if slow { diagnose2(&lines[i]).1 } else { diagnose(&lines[i]) }).clone();
             oracles[i] = format!("{} stage={}", r.oracle, stage);
             key = format!("{} stage={}", key, stage);
+            // a VALID call-graph program that crashes / hangs / overruns is never one of the listed findings (their inputs are
+            // pathological by size or nesting): keep it apart from the coarse (signal, stage) keys, replay = the spec itself
+            let is_cyc = reqs[i].input.starts_with("cyc:") || reqs[i].input.starts_with("cycone:");
+            if is_cyc && known.contains(&key) {
+                oracles[i] = format!("FAIL:valid call-graph program: {} stage={}", r.oracle.trim_start_matches("FAIL:"), stage);
+                continue;
+            }
         }
         if done.contains(&key) || (known.contains(&key) && std::env::var("VERIF_SHRINK_KNOWN").is_err()) {
             continue;
